@@ -40,8 +40,8 @@ let () =
     out "NTF" (ulike (fun b -> mob_NT fops b.m (bq b !q) (bq b !f)));
     out "NINVF" (ulike (fun b -> mob_NInv fops b.m (bq b !q) (bq b !f)));
     out "NINVTW" (qlike (fun b -> mob_NInvT fops b.m (bq b !q) (bu b !w)));
-    out "NDOTW" (qlike (fun b -> mob_NDot fops b.m (bq b !q) (mob_N fops b.m (bq b !q) (bu b !u)) (bu b !w)));
-    out "NDOTTF" (ulike (fun b -> mob_NDotT fops b.m (bq b !q) (mob_N fops b.m (bq b !q) (bu b !u)) (bq b !f)));
+    out "NDOTW" (qlike (fun b -> mob_NDot fops b.m (bq b !q) (bu b !u) (mob_N fops b.m (bq b !q) (bu b !u)) (bu b !w)));
+    out "NDOTTF" (ulike (fun b -> mob_NDotT fops b.m (bq b !q) (bu b !u) (mob_N fops b.m (bq b !q) (bu b !u)) (bq b !f)));
     print_endline "END" in
   try while true do
     let line = input_line stdin in
